@@ -17,7 +17,8 @@ SHARDS = {"quick": 8, "thorough": 16}
 RULE = ("cases = (start position, distance mode, direction, constant-speed "
         "shape (arc/arc_radius/circle/helix with equal radii, 1..8 turns quick, "
         "..64 thorough + a thin class to 600), length/resolution log-uniform "
-        "in 1..500 (thorough: thin class to 1e4), radius >= 5 resolutions) for "
+        "in 1..500 (thorough: thin class to 1e4), radius >= 5 resolutions (half the "
+        "cases: radius >= 0.5 resolutions)) for "
         "the length clauses; any of the eight shapes at res and res/2 for the "
         "monotonicity clause; (resolution, unit switch sequence) for the units "
         "clause; non-trivial = length/resolution >= 10; distinct by SHA-1")
@@ -50,7 +51,9 @@ def const_shape(max_turns):
         st.fixed_dictionaries({"shape": st.just("arc"), "r": rad, "a0": ang, "sweep": sweep,
                                "dz": dz, "zgiven": st.booleans(), "full": st.sampled_from([False, False, True])}),
         st.fixed_dictionaries({"shape": st.just("arc_radius"), "dx": nz, "dy": off,
-                               "rf": st.floats(min_value=1.05, max_value=4.0),
+                               "rf": st.one_of(st.floats(min_value=1.05, max_value=4.0),
+                                               # radius barely above half the chord
+                                               st.floats(min_value=1.00002, max_value=1.004)),
                                "neg": st.booleans(), "dz": dz, "zgiven": st.booleans()}),
         st.fixed_dictionaries({"shape": st.just("circle"), "cx": nz, "cy": off}),
         rad.flatmap(lambda r: st.fixed_dictionaries({
@@ -84,15 +87,22 @@ def radius_of(info):
 def check_lengths(case, cl):
     d = case["desc"]
     # plan the resolution from the intended geometry: radius >= 5 resolutions
-    probe = geom.run_shape(case["start"], case["mode"], case["dir"], 9, d, ratio=2.0)
+    probe = geom.run_shape(case["start"], case["mode"], case["dir"], 9, d, ratio=2.0,
+                           pre=case.get("pre"))
     L = probe["L"]
     info = probe["info"]
     if info["kind"] == "arc_radius":
         cv = info_curve(info, info["target"])
         L = math.hypot(info["R"] * cv.S, info["dz"])
     r = radius_of(info)
-    res = min(L / case["ratio"], r / 5.0)
-    run = geom.run_shape(case["start"], case["mode"], case["dir"], 9, d, res=res)
+    # chords of the library's fine samples (resolution/10 apart) must stay close
+    # to arcs for its own bookkeeping to mean "path travelled": radius >= res/2
+    res = min(L / case["ratio"], r / (5.0 if case.get("wide_radius", True) else 0.5))
+    # optionally another path was traced on the same builder just before
+    run = geom.run_shape(case["start"], case["mode"], case["dir"], 9, d, res=res,
+                         pre=case.get("pre"))
+    if case.get("pre"):
+        cl.add("after_another_traced_path")
     what = (f"{run['call'][0]}{tuple(run['call'][1])} from {run['start']} "
             f"({case['mode']}, {case['dir']}, resolution {res:.6g}, length {L:.6g})")
     if run["exc"] is not None:
@@ -196,7 +206,9 @@ def replay(case, sub=None):
 def start_strategy():
     from hypothesis import strategies as st
     c = st.one_of(st.integers(-50, 50).map(float), st.floats(min_value=-500, max_value=500))
-    return st.one_of(st.just([0.0, 0.0, 0.0]), st.tuples(c, c, c).map(list))
+    far = st.floats(min_value=-4000, max_value=4000)    # coordinates >> resolution
+    return st.one_of(st.just([0.0, 0.0, 0.0]), st.tuples(c, c, c).map(list),
+                     st.tuples(far, far, c).map(list))
 
 
 def run_shard(ctx):
@@ -212,7 +224,8 @@ def run_shard(ctx):
 
     run_hypothesis(ctx, st.fixed_dictionaries(dict(
         base, kind=st.just("lengths"), desc=const_shape(8 if quick else 64),
-        ratio=log_ratio(500))), body_len, 45 if quick else 1500, sub="lengths")
+        wide_radius=st.booleans(), ratio=log_ratio(500),
+        pre=st.one_of(st.none(), st.none(), hist.shape_strategy(2)))), body_len, 45 if quick else 1500, sub="lengths")
 
     def body_half(case):
         cl = set()
